@@ -24,9 +24,9 @@ META = {
                     'the labtech (or, in (d), multiprocessing) code it calls', 'a worker that dies while bootstrapping has not started its task'],
     'tiers': {
         'quick': {'shards': 16, 'budget_s': 50, 'mp_scn': 1, 'mp_stride': 9, 'serial_scn': 2, 'serial_stride': 2, 'fork_scn': 2, 'fork_stride': 7,
-                  'spawn_scn': 1, 'spawn_stride': 40, 'double_pairs': 160, 'sigint_runs': 48},
+                  'spawn_scn': 1, 'spawn_stride': 40, 'double_pairs': 160, 'sigint_runs': 48, 'handler_sweeps': 2, 'handler_sweep_len': 26},
         'thorough': {'shards': 16, 'budget_s': 420, 'mp_scn': 3, 'mp_stride': 1, 'serial_scn': 6, 'serial_stride': 1, 'fork_scn': 3, 'fork_stride': 1,
-                     'spawn_scn': 2, 'spawn_stride': 6, 'double_pairs': 2000, 'sigint_runs': 480},
+                     'spawn_scn': 2, 'spawn_stride': 6, 'double_pairs': 2000, 'sigint_runs': 480, 'handler_sweeps': 14, 'handler_sweep_len': 45},
     },
 }
 
@@ -366,7 +366,22 @@ def jobs_for(rep, cfg):
         key = (backend, j % 7)
         if key not in n0:
             n0[key] = run_case(scn, 'line', count_only=True)['n_lines'] or 300
-        jobs.append(('line', scn, prng.randrange(1, n0[key] + 250), prng.randrange(1, 400), None))
+        # the second interrupt mostly lands in what follows the first one closely (the first interrupt's handler:
+        # logging, cancel loop, first epilogue waits), sometimes much later
+        k2 = prng.randrange(1, 40) if prng.random() < 0.5 else prng.randrange(1, 400)
+        # ... and the first one mostly arrives once tasks have been submitted (before that there is nothing to stop)
+        k1 = prng.randrange(int(n0[key] * 0.75), n0[key] + 250) if prng.random() < 0.7 else prng.randrange(1, n0[key] + 250)
+        jobs.append(('line', scn, k1, k2, None))
+    # a sweep of the second interrupt over every line that directly follows the first one, for a few first points
+    # taken while tasks are still waiting to be started
+    for a in range(cfg.get('handler_sweeps', 2)):
+        scn = make_scn(rep.seed, 100 + a % 7, 'fork', gated=True)
+        key = ('fork', a % 7)
+        if key not in n0:
+            n0[key] = run_case(scn, 'line', count_only=True)['n_lines'] or 300
+        k1 = prng.randrange(int(n0[key] * 0.8), n0[key] + 60)
+        for k2 in range(1, cfg.get('handler_sweep_len', 26)):
+            jobs.append(('line', scn, k1, k2, None))
     for j in range(cfg['sigint_runs']):
         backend = 'fork' if prng.random() < 0.75 else 'spawn'
         scn = make_scn(rep.seed, 200 + j % 11, backend, gated=True)
